@@ -83,6 +83,11 @@ def generate(seed, tier):
         if rf.random() < 0.2:
             _, src = badsrc.make_bad(rf, src)
         pool.append(src)
+    if rc.random() < 0.25:
+        # deeply nested but perfectly valid programs (a limit on depth, if one exists, must treat both worlds alike)
+        d = rc.randint(150, 320)
+        pool.append(rc.choice(['- ' * d + '1', 'x = ' + '[' * d + ']' * d + '\nlen(x)', 'not ' * d + 'True',
+                               '1' + ' + 1' * d, '0' + ' if False else 0' * min(d, 200)]))
     world['prewarm_sources'] = [s for s in pool if rc.random() < 0.5] if world['prewarm'] else []
     ops = []
     weights = [1.0 / (i + 1) for i in range(len(pool))]
